@@ -303,6 +303,26 @@ theorem ignore_can_unhide_duplicate :
                 sev := .error, onlyOnce := false, span := [16], offset := 0, endLine := none, endColumn := none, parent := none } ],
     by decide, by decide, by decide⟩
 
+/-- (found by the search, check-class-namedtuple.test:testNewNamedTupleOverloading) why `Quiet` excludes
+    error-code links: the link note has priority 20 and is ordered *within the run of neighbours that share position
+    and code*; the code-less "not covered" notes that a non-matching ignore inserts split that run, so the link
+    note ends up before the error's last note instead of after it — surviving messages change their order -/
+theorem not_covered_note_reorders_link_note :
+    ∃ evs : List Ev, ¬ Quiet St.init evs ∧
+      (fileMessages (run Gen.env St.init evs).dyn 1).map (fun t => t.msg)
+        = [.user 10 0, .user 11 0, .user 12 0, .seeLink 8] ∧
+      (fileMessages (run Gen.env St.init (evs.map (addIgnoreEv 1 14 [29]))).dyn 1).map (fun t => t.msg)
+        = [.user 10 0, .notCovered 8 [29], .user 11 0, .seeLink 8, .user 12 0] := by
+  refine ⟨[ .setFile 1 { enabled := [], disabled := [], showLinks := true, manyThreshold := -1 },
+      .setIgnored 1 [] false, .setSkipped 1 [],
+      .report { uid := 1, line := 14, column := some 0, msgId := 10, code := some ⟨8, none, true, true⟩, blocker := false,
+                sev := .error, onlyOnce := false, span := [14], offset := 0, endLine := none, endColumn := none, parent := none },
+      .report { uid := 2, line := 14, column := some 0, msgId := 11, code := some ⟨8, none, true, true⟩, blocker := false,
+                sev := .note, onlyOnce := false, span := [14], offset := 0, endLine := none, endColumn := none, parent := none },
+      .report { uid := 3, line := 14, column := some 0, msgId := 12, code := some ⟨8, none, true, true⟩, blocker := false,
+                sev := .note, onlyOnce := false, span := [14], offset := 0, endLine := none, endColumn := none, parent := none } ],
+    by decide, by decide, by decide⟩
+
 /-! ## from what is stored to what is displayed -/
 
 /-- **output level**.  `ignore_exact` / `disable_code_exact` speak about what the sink stores; `file_messages`
